@@ -158,6 +158,19 @@ func (e *locksetEngine) analyse(fn *ssa.Function, count bool) []lockMiss {
 			}
 		}
 	}
+	// an immediately-invoked literal (what is left of a helper that was inlined back) runs with the locks its caller
+	// holds at the call; its captured variables are the caller's (canon resolves them), so the keys agree
+	if cl := iifeCall(fn); cl != nil && fn.Parent() != nil && fn.Parent().Blocks != nil {
+		heldLocks(e.p, fn.Parent(), func(i ssa.Instruction, held lockset) {
+			if i == ssa.Instruction(cl) {
+				for k, v := range held {
+					if entry[k] < v {
+						entry[k] = v
+					}
+				}
+			}
+		})
+	}
 	in[fn.Blocks[0]] = entry
 	work := []*ssa.BasicBlock{fn.Blocks[0]}
 	out := map[*ssa.BasicBlock]lockset{}
